@@ -1,7 +1,15 @@
 """Per-check metadata for MANIFEST.json (see make_manifest.py)."""
 
 
-def register(reg):
+def register(reg0):
+    def reg(cid, technique, level, note, ref):
+        level = level.replace(*SIZES[cid]) if cid in SIZES else level
+        if cid in ADDENDA:
+            level = level + " As extended after four rounds of seeded changes: " + ADDENDA[cid][0]
+            if ADDENDA[cid][1]:
+                note = note + " " + ADDENDA[cid][1]
+        reg0(cid, technique, level, note, ref)
+
     reg("C03",
         "runtime oracle monitor on recorded support queries (history per object) + numba bounds-check sanitizer",
         "Every support_function/first_vertex/center answer of ~3 000 (quick) / 60 000 (thorough) generated colliders is "
@@ -201,3 +209,52 @@ def register(reg):
         "Trusted: numba's NUMBA_BOUNDSCHECK instrumentation. Closest points are compared only where the optimum is unique; "
         "contact_forces at the 5% noise level of C16; MPR depth only in generic placements (ties).",
         "DESIGN.md section 4 C20")
+
+
+# quick-tier sizes that changed after the table above was written
+SIZES = {
+    "C09": ("5 000 (quick)", "10 000 (quick)"),
+    "C10": ("14 000 (quick)", "35 000 (quick)"),
+    "C11": ("14 000 (quick)", "35 000 (quick)"),
+}
+
+# what each check gained later (DESIGN.md 8.2) and the known findings keyed since
+ADDENDA = {
+    "C01": ("placement class 'axial'; 20% of the colliders reach their pose through update_pose (fresh array / stack slice / buffer "
+            "overwritten in place); meshes with mixed triangle winding; L without the distance from the origin.",
+            "Further rare findings of the thorough tier: K29 (tiny positive d on shallow overlaps), K30 (flat shapes), K33 (needle hull vs copy)."),
+    "C02": ("L without the distance from the origin; K22 keyed by the rebuilt first simplex edge of libccd.", ""),
+    "C03": ("mesh triangles also with Qhull's raw / flipped winding; pose updates mid-history for every updatable type through fresh "
+            "array, stack slice or in-place buffer; directions normal to mesh faces; a query that does not return within the CPU "
+            "budget is a violation.", "K31: mesh support for directions of norm 1e-8."),
+    "C04": ("aabb() is judged again after update_pose (fresh / stack / in-place buffer, small and large motions).", ""),
+    "C05": ("batches of other dtypes (int64 / int32 / float32 after float64 batches).", ""),
+    "C06": ("frames hanging directly on 'origin' and moved by overwriting one pose array in place, replacement of the collider of an "
+            "existing frame, asymmetric whitelists, moving base frame; support points of every collider are compared with a fresh "
+            "collider of the same parameters at the transform manager's pose after every step.", ""),
+    "C07": ("L without the distance from the origin.", ""),
+    "C08": ("L exactly as the property defines it (the distance from the origin only as 1e-9 rounding allowance); every 10th case a "
+            "pair touching exactly on the line through its centres (ORIGIN_ON_V1), both argument orders.", ""),
+    "C09": ("half of the primitive-only cases in the 'axial' / lattice classes; L without the distance from the origin.",
+            "K24 (original GJK returns 0 through its tetrahedron exit), K27 (accelerated run ends on a degenerate simplex), K28 (shapes below 0.1)."),
+    "C10": ("grazing class (a primitive passing 1e-9..1e-4 of the size outside a polygon edge), on-axis and small-scale scenes.",
+            "K25 was repaired (D20)."),
+    "C11": ("same scene classes as C10.", ""),
+    "C12": ("all 35 primitive functions are visited (the first version reached 15); returned points of primitive functions are compared "
+            "where the optimum is unique; variant 'moved-by-update' applies the motion with update_pose to the objects that answered "
+            "the base queries; scaled primitive scenes keep every feature inside [0.2, 1e2].", "K11, K24, K27 consequences keyed."),
+    "C14": ("caller-array monitor: constructor arrays kept by the caller and shared with a sibling collider, and pose stacks, must not "
+            "change.", ""),
+    "C15": ("nearly parallel faces (tilt 1e-7..1e-3 rad); the world-frame summary of contact_forces(..., return_details=True) is judged "
+            "like the body-frame surface.", ""),
+    "C16": ("torques follow the same relations as the forces (scale |f| x body size); body 2 moved by editing its pose in place "
+            "between two queries; return_details relation; state-based comparison of the tree broad phase with brute force.",
+            "K32: coarse contacts (<= 20 polygons) exceed the 5 % noise level under re-expression."),
+    "C17": ("boundary-face test chunked / sampled for the finest meshes.", ""),
+    "C18": ("24 000 sampled {-2..2}^3 configurations also in the quick tier; 'GJK sliver' family (points collinear up to rounding on a "
+            "line that misses the origin); K15 / K16 carry rate ceilings.", "D17 / D18 repaired what the sliver family found."),
+    "C19": ("small shapes (0.01-0.05) across gaps of 1e-4..2e-2, half exactly axis-aligned incl. vertex / segment / quad hulls; EPA with "
+            "raised documented limits on symmetric smooth pairs; iteration-cap stress with tiny caps; hang verdicts on CPU time.", ""),
+    "C20": ("family 11: every solver with a tiny public iteration budget in all three modes.",
+            "K26 (line_segment_to_circle ties + end-point clamp), K20 (MPR depth on deep penetrations)."),
+}
